@@ -28,6 +28,7 @@ type navReq struct {
 	fl      [3]bool // freq, norm, locs
 	prePL   segment.PostingsList
 	prePI   segment.PostingsIterator
+	havePL  segment.PostingsList // if set: iterate this existing list again instead of looking it up
 	replace bool    // ReplaceActual with a subset right after creation (general lists only)
 	stopAt  float64 // fraction of the sequence to execute (1 = all); <1 leaves a half-consumed iterator
 	sig     string  // signature prefix for violations
@@ -78,7 +79,13 @@ func navigate(c *runner.Ctx, r *rand.Rand, q navReq) (pl segment.PostingsList, p
 		c.Violate(q.sig+kind, msg, ctxd())
 	}
 	var err error
-	panicked, pmsg, stack := runner.Try(func() { pl, err = q.dict.PostingsList([]byte(q.term), q.except, q.prePL) })
+	panicked, pmsg, stack := runner.Try(func() {
+		if q.havePL != nil {
+			pl = q.havePL
+			return
+		}
+		pl, err = q.dict.PostingsList([]byte(q.term), q.except, q.prePL)
+	})
 	if panicked {
 		viol("panic:PostingsList:"+runner.TopIceFrame(stack), "PostingsList panicked: "+pmsg)
 		return nil, nil, st, false
